@@ -42,7 +42,40 @@ def keyword_table(F):
                 if body.get("k") == "Lit" and body.get("lit") == "str":
                     for l in lits:
                         tab[l] = body["v"]
-            return tab, Hh.sp(x)
+            if len(tab) >= 5:
+                return tab, Hh.sp(x)
+    # the table as data, possibly behind a quick test that sorts most names out (length, first letter): what the function answers is
+    # read off its text for every keyword of the language and for every key of its table (ceval: constants, comparisons of literals,
+    # a bisection of the constant table; the table has to be sorted for that or the evaluation refuses)
+    from engine.rulekit import ceval
+    try:
+        keys = set(STRICT + RESERVED + list(WEAK if "WEAK" in globals() else []))
+        rows_keys = []
+        for y in Hh.exprs(nb["value"]):
+            if y.get("k") == "Path" and y.get("res") == "def" and str(y.get("dk", "")).startswith(("Const", "Static")):
+                cb = F.lib.body(y.get("path") or "")
+                if cb is not None and cb.get("hir") is not None:
+                    for z in Hh.exprs(Hh.norm_body(cb)["value"]):
+                        if z.get("k") == "Tup" and len(z["es"]) == 2 and Hh.strip(z["es"][0]).get("lit") == "str":
+                            rows_keys.append(Hh.strip(z["es"][0])["v"])
+        if len(rows_keys) > 5:
+            tab = {}
+            for kw in sorted(keys | set(rows_keys)):
+                if kw == "Self":
+                    continue
+                out = ceval.evaluate(F, RENAME, [kw])
+                if not isinstance(out, str):
+                    raise ceval.Unsupported("the keyword function does not answer with a string")
+                if out != kw:
+                    tab[kw] = str(out)
+            # names that are no keywords stay as they are (a sample around the quick test's borders)
+            for plain in ("a", "id", "name", "value", "Type", "x1", "abstracts", "continued", "zz", "_x"):
+                if ceval.evaluate(F, RENAME, [plain]) != plain:
+                    raise ceval.Unsupported(f"the keyword function changes the plain name `{plain}`")
+            TABLE_ORDER.clear()
+            return tab, b["span"]
+    except ceval.Unsupported:
+        pass
     # the table as data: a constant array of (keyword, replacement) pairs that the function searches
     for y in Hh.exprs(nb["value"]):
         if y.get("k") == "Path" and y.get("res") == "def" and str(y.get("dk", "")).startswith(("Const", "Static")):
